@@ -83,9 +83,17 @@ thread_local! {
     static CUR: Cell<&'static str> = const { Cell::new("") };
 }
 
+/// the label most recently set by any thread, readable by the watchdog
+static CUR_GLOBAL: std::sync::Mutex<&'static str> = std::sync::Mutex::new("");
+
 /// Record which library function is being exercised (used for the report).
 pub fn at(f: &'static str) {
     CUR.with(|c| c.set(f));
+    *CUR_GLOBAL.lock().unwrap_or_else(|e| e.into_inner()) = f;
+}
+
+pub fn cur_global() -> &'static str {
+    *CUR_GLOBAL.lock().unwrap_or_else(|e| e.into_inner())
 }
 
 pub fn cur() -> &'static str {
@@ -627,6 +635,17 @@ pub fn tournament(n: usize, flip: usize) -> G {
         }
     }
     g
+}
+
+/// the arcs (u, v) of a bit matrix of this order whose cell u * order + v is
+/// bit 63 of its 64-bit block (order 9: (7, 0); order 64: (k, 63) for every k)
+pub fn bit63_arcs(order: usize) -> Vec<(usize, usize)> {
+    (0..)
+        .map(|k| 64 * k + 63)
+        .take_while(|&i| i < order * order)
+        .map(|i| (i / order, i % order))
+        .filter(|&(u, v)| u != v)
+        .collect()
 }
 
 /// ids next to word-size boundaries that exist in 0..n, plus both ends
